@@ -102,7 +102,7 @@ func NewMultilineReverseSuffixSearcher(
 // SetPrefixLiterals enables fast path verification using prefix literals.
 // Call this after construction if the pattern has a simple structure: ^prefix.*suffix
 func (s *MultilineReverseSuffixSearcher) SetPrefixLiterals(prefixLiterals *literal.Seq) {
-	if prefixLiterals != nil && !prefixLiterals.IsEmpty() {
+	if prefixLiterals != nil && !prefixLiterals.IsEmpty() && !prefixLiterals.IsPartialCoverage() {
 		// Get the longest common prefix for verification
 		s.prefixBytes = prefixLiterals.LongestCommonPrefix()
 	}
